@@ -47,6 +47,12 @@ func ZZ_C07_labeled_extract_expand_are_RFC9180() {
 		zzModelOnly() // HKDF is a recorder here
 	}
 	suite := Suite{KEM_X25519_HKDF_SHA256, KDF_HKDF_SHA256, AEAD_AES128GCM}
+	suiteID := []byte{'H', 'P', 'K', 'E', 0x00, 0x20, 0x00, 0x01, 0x00, 0x01}
+	if zzPick("suite", 0, 1) == 1 {
+		// the only registered identifier that needs both bytes of its 16-bit field
+		suite = Suite{KEM_XWING, KDF_HKDF_SHA256, AEAD_ChaCha20Poly1305}
+		suiteID = []byte{'H', 'P', 'K', 'E', 0x64, 0x7a, 0x00, 0x01, 0x00, 0x03}
+	}
 	label := make([]byte, zzPick("labellen", 0, 3))
 	data := make([]byte, zzPick("datalen", 0, 2))
 	prk := make([]byte, 32)
@@ -54,7 +60,6 @@ func ZZ_C07_labeled_extract_expand_are_RFC9180() {
 	zzFill("data", data)
 	zzFill("prk", prk)
 	l := uint16(zzPick("L", 0, 1, 32, 255, 256, 257, 288, 8160))
-	suiteID := []byte{'H', 'P', 'K', 'E', 0x00, 0x20, 0x00, 0x01, 0x00, 0x01}
 	kemID := []byte{'K', 'E', 'M', 0x00, 0x20}
 	v := []byte("HPKE-v1")
 	li := []byte{byte(l >> 8), byte(l)}
